@@ -2782,10 +2782,9 @@ impl Lexer<'_> {
                         // Quoted char
 
                         // First, store the literal section before the escape percent
-                        let (new_start, new_end) =
+                        let (new_start, _) =
                             self.add_string_literal_from_src(last_lit_end_byte_offset, None);
                         lit_start_idx = min(lit_start_idx, new_start);
-                        lit_end_idx = new_end;
 
                         // Now advance the cursor past the percent
                         self.cursor.advance();
@@ -2796,6 +2795,14 @@ impl Lexer<'_> {
 
                         // Finally, advance the cursor past the quoted char
                         self.cursor.advance();
+
+                        // And store it right away. If the section before the percent was
+                        // empty (escape at the very start of the text) the buffer would still
+                        // hold nothing and the token would be taken for one without a payload
+                        let (_, new_end) =
+                            self.add_string_literal_from_src(last_lit_end_byte_offset, None);
+                        lit_end_idx = new_end;
+                        last_lit_end_byte_offset = self.cur_byte_offset();
                         continue;
                     }
 
